@@ -287,7 +287,10 @@ impl Group for Read {
             "/%252e%252e%252f", "/a%252f..%252f..%252fsecret.",
             // every `./` encoded and an escape that is not UTF-8 next to it: the check sees the raw string (the decoding
             // fell back), so whatever forms the file path must not decode more leniently than the check did
-            "/%2e%2e%2fsecret-%ff.txt", "/%2E%2E%2Fsecret-%c0.txt", "/%2e%2e%2f%ff", "/a%2f%2e%2e%2f%2e%2e%2fsecret-%fe.txt", "/%2e%2e%2fsecret-%ff.txt%3F"];
+            "/%2e%2e%2fsecret-%ff.txt", "/%2E%2E%2Fsecret-%c0.txt", "/%2e%2e%2f%ff", "/a%2f%2e%2e%2f%2e%2e%2fsecret-%fe.txt", "/%2e%2e%2fsecret-%ff.txt%3F",
+            // a backslash is an ordinary byte of a file name here: nothing between the check and the file system may
+            // turn it into a separator
+            "/..%5csecret2.txt", "/%2e%2e%5csecret2.txt", "/%2E%2E%5Cpublic.txt", "/a%5c..%5c..%5csecret2.txt", "/..%5c..%5csecret.txt", "/a%5cb.html", "/..%5c"];
         for t in fixed {
             for m in ["GET", "HEAD", "POST"] {
                 for h in 0..6 {
